@@ -594,6 +594,11 @@ func (hash *Hash) UnmarshalJSON(b []byte) error {
 	if err != nil {
 		return err
 	}
+	if s == "" {
+		// no hash: what MarshalJSON writes for the (absent) parent hash of a list without events
+		*hash = nil
+		return nil
+	}
 	b, err = base64.URLEncoding.DecodeString(s)
 	if err != nil {
 		return err
